@@ -18,6 +18,7 @@ from ..nf import Rat
 BASE_SOLVER = "torchsde/_core/base_solver.py"
 # constructors of a preallocated output buffer (the alternative to collecting a list and stacking it)
 OUTPUT_BUFFER_CTORS = ("torch.empty", "torch.zeros", "torch.empty_like", "torch.zeros_like")
+BUFFER_METHODS = ("new_empty", "new_zeros", "new_ones", "new_full")
 CARRIED = ("step_size", "prev_t", "curr_t", "prev_y", "curr_y", "curr_extra", "prev_error_ratio")
 
 
@@ -77,8 +78,16 @@ class LoopHooks(Hooks):
             self.no_grad_depth += 1 if entering else -1
 
     def tensor_attr(self, interp, recv, name, node, fi):
-        if name in ("dtype", "device", "shape"):
+        if name in ("dtype", "device"):
             return f"{recv}.{name}"
+        if name == "shape":
+            return (nf.sym(f"{recv}.shape[0]", True), nf.sym(f"{recv}.shape[1]", True))
+        return NotImplemented
+
+    def tensor_method(self, interp, recv, name, args, kwargs, node, fi):
+        if name in BUFFER_METHODS:
+            # y0.new_empty((len(ts), *y0.shape)): an output tensor in the receiver's dtype
+            return new_output_buffer(args[:1], dict(kwargs, dtype=kwargs.get("dtype", f"{recv}.dtype")))
         return NotImplemented
 
     def external_call(self, interp, dotted, args, kwargs, node, fi):
@@ -223,7 +232,12 @@ def new_output_buffer(args=(), kwargs=None, head=None):
     """A preallocated output tensor: writes `buf[k] = v` are logged in order; `dtype` is what it was created with (a
     write converts to it).  `head` seeds the log with the symbol standing for everything written before the loop head."""
     kwargs = kwargs or {}
-    buf = Obj("ys-buffer", attrs={"dtype": kwargs.get("dtype"), "sizes": tuple(args)})
+    sizes = tuple(args)
+    if len(sizes) == 1 and isinstance(sizes[0], (tuple, list)):
+        sizes = tuple(sizes[0])                 # torch.empty((T, B, d)) and torch.empty(T, B, d) alike
+    elif not sizes and isinstance(kwargs.get("size"), (tuple, list)):
+        sizes = tuple(kwargs["size"])
+    buf = Obj("ys-buffer", attrs={"dtype": kwargs.get("dtype"), "sizes": sizes})
     if head is not None:
         buf.setitem_log.append(("head", head))
     return buf
@@ -421,6 +435,15 @@ def make_self(model, adaptive, step_log):
     return Obj("solver", cls=cls, attrs=attrs)
 
 
+def ts_attrs(length):
+    """What every abstract time axis answers besides indexing: its length, dtype / device tokens, and the constructors of an
+    output tensor in its dtype (`ts.new_empty((len(ts), *y0.shape))`)."""
+    attrs = {"__len__": Intrinsic("len", lambda it, a, k, n, f: length), "dtype": "ts.dtype", "device": "ts.device"}
+    for m in BUFFER_METHODS:
+        attrs[m] = Intrinsic(f"ts.{m}", lambda it, a, k, n, f: new_output_buffer(a[:1], dict(k, dtype=k.get("dtype", "ts.dtype"))))
+    return attrs
+
+
 def make_ts():
     out_t = nf.sym("out_t", True)
 
@@ -432,7 +455,7 @@ def make_ts():
         if isinstance(idx, slice) and idx.start == 1 and idx.stop is None:
             return [out_t]
         raise AnalysisError(f"unexpected index into ts: {idx!r}", where=astq.loc(fi, node))
-    return Obj("ts", getitem_hook=getitem, attrs={"__len__": Intrinsic("len", lambda it, a, k, n, f: nf.sym("len(ts)", True))}), out_t
+    return Obj("ts", getitem_hook=getitem, attrs=ts_attrs(nf.sym("len(ts)", True))), out_t
 
 
 def head_env(self_obj, ts_obj, out_t, style="list"):
@@ -812,7 +835,7 @@ def rule_clock_progress(ctx, rule_id):
             if idx == -1:
                 return t_end
             raise AnalysisError(f"unexpected index into ts: {idx!r}", where=astq.loc(fi2, node))
-        ts_obj = Obj("ts", getitem_hook=getitem, attrs={"__len__": Intrinsic("len", lambda it, a, k, n, f2: Fraction(2))})
+        ts_obj = Obj("ts", getitem_hook=getitem, attrs=ts_attrs(Fraction(2)))
         self_obj = make_self(model, adaptive, steps)
         self_obj.attrs["dt"], self_obj.attrs["dt_min"] = Fraction(1, 1000), Fraction(1, 10 ** 5)
 
